@@ -24,15 +24,17 @@ RULE = (
 ASSUMPTIONS = ["subspaces are configured through the public setters", "float64 linear algebra of the reference (condition numbers of P are below 1e8 on this alphabet; checked)"]
 BUDGET = {"quick": 600, "thorough": 3600}
 ITERS = [1, 2, 3, 4, 5, 6, 50, 200]
+ITERS_THOROUGH = [1, 2, 3, 4, 5, 6, 7, 8, 9, 10, 20, 50, 100, 200]
 
 
 def cases(tier, seed):
     out = []
+    subs = range(4) if tier == "quick" else range(12)
     for kind in ("isv", "jfa"):
         for u in range(len(c11.UBMS)):
-            for sub in range(4):
+            for sub in subs:
                 for sl in range(6):
-                    out.append(dict(kind=kind, ubm=u, sub=sub, sl=sl, fac=0, probe=0, seed=seed))
+                    out.append(dict(kind=kind, ubm=u, sub=sub, sl=sl, fac=0, probe=0, seed=seed, tier=tier))
     return out
 
 
@@ -75,6 +77,7 @@ def run_case(case):
     theta = np.zeros(J.dim)
     ref = {}
     Jvals = [J.J(theta)]
+    ITERS = ITERS_THOROUGH if case.get("tier") == "thorough" else globals()["ITERS"]
     for k in range(1, max(ITERS) + 1):
         theta = J.sweep(theta)
         Jvals.append(J.J(theta))
